@@ -50,6 +50,19 @@ def run_threads(exe, threads, seed, ops, listfile):
         except Exception as e:                               # timeout: the concurrent run does not terminate
             return -999, "", "timeout after %d s: %s" % (timeout, type(e).__name__), True
     rc, out, err, to = once("halt_on_error=1 exitcode=66 report_signal_unsafe=0", 300)
+    env_failure = False
+    for _ in range(3):
+        # ThreadSanitizer itself could not start (address-space layout): not a property of the library; try again
+        if "FATAL: ThreadSanitizer" in err or "unexpected memory mapping" in err:
+            env_failure = True
+            rc, out, err, to = once("halt_on_error=1 exitcode=66 report_signal_unsafe=0", 300)
+            if not ("FATAL: ThreadSanitizer" in err or "unexpected memory mapping" in err):
+                env_failure = False
+        else:
+            break
+    if env_failure:
+        return {"threads": threads, "seed": seed, "ops": ops, "rc": 0, "diffs": [], "tsan": [], "done": "UNAVAILABLE (ThreadSanitizer could not start: %s)" % err.strip()[:200],
+                "hang": False, "stderr_tail": err[-500:], "unavailable": True}
     reports = []
     if "ThreadSanitizer" in err:
         for blk in err.split("=================="):
@@ -105,8 +118,9 @@ def run(ctx):
     runs = []
     if getattr(ctx, "replay", None):
         rp = json.load(open(ctx.replay))
-        docs = rp.get("documents") or pick_docs(ctx, 40)
-        plan = [(rp.get("threads", 4), rp.get("harness_seed", ctx.seed), rp.get("ops", 60))]
+        rp = rp.get("interfering_pair") or rp
+        docs = [os.path.join(common.REPO, d) for d in rp.get("documents") or []] or pick_docs(ctx, 40)
+        plan = [(rp.get("threads") or 4, rp.get("harness_seed") or ctx.seed, rp.get("ops") or 120)]
     else:
         docs = pick_docs(ctx, 40 if ctx.tier == "quick" else 120)
         rng = Rng(ctx.seed, 141)
@@ -147,6 +161,7 @@ def run(ctx):
         "partial": "real schedules: the ThreadSanitizer harness explores the schedules the machine happens to produce (exploration support, not proof); "
                    "the proved part is (a) the generic theorem and (b) the section/import inventory of the current objects",
         "exploration_label": "support (search for a concrete interfering pair), level stays `proof` for (a)+(b)",
+        "exploration_runs_unavailable": sum(1 for r in runs if r.get("unavailable")),
         "tsan_reports": sum(len(r["tsan"]) for r in runs),
         "output_differences": sum(len(r["diffs"]) for r in runs),
     })
@@ -156,7 +171,7 @@ def run(ctx):
     pair = None
     if racy:
         r = racy[0]
-        pair = {"threads": r["threads"], "harness_seed": r["seed"], "ops": r["ops"], "documents": docs,
+        pair = {"threads": r["threads"], "harness_seed": r["seed"], "ops": r["ops"], "documents": rel,
                 "output_differences": r["diffs"][:5], "tsan": [summarize_race(x) for x in r["tsan"][:3]], "tsan_first_report": (r["tsan"] or [""])[0][:2500],
                 "rc": r["rc"], "did_not_terminate": r["hang"], "stderr_tail": r.get("stderr_tail", ""),
                 "replay_cmd": "bin/check C14 --replay <this file>   (or: %s %d %d %d <file listing `documents`>)" % (os.path.basename(exe), r["threads"], r["seed"], r["ops"])}
